@@ -615,3 +615,9 @@ func FuncValueTargets(v ssa.Value) []*ssa.Function {
 	}
 	return out
 }
+
+// InRepoPkg reports whether an SSA package belongs to the analysed module.
+func InRepoPkg(pk *ssa.Package) bool {
+	pp := pk.Pkg.Path()
+	return pp == Mod || strings.HasPrefix(pp, Mod+"/")
+}
